@@ -5,6 +5,7 @@ import hashlib
 import importlib
 import json
 import os
+import signal
 import subprocess
 import sys
 import time
@@ -199,6 +200,45 @@ def run_shard(prop, tier, seed, shard, nshards):
     return res.dump()
 
 
+def _spin_path(prop, tier, shard):
+    return os.path.join(OUT_DIR, "shards", f"{prop}-{tier}-{shard}.spin")
+
+
+_spin_fd = None
+
+
+def _read_spin_marker(prop, tier, shard):
+    try:
+        with open(_spin_path(prop, tier, shard), "rb") as f:
+            return json.loads(f.read().decode("utf-8", "replace").strip())
+    except Exception:  # noqa
+        return None
+
+
+def spin_guard(prop, tier, shard, label, case=None, cpu_seconds=90):
+    global _spin_fd
+    """Called by a shard before a case that must return: notes the case in a marker file and (re)arms a CPU-time timer whose expiry
+    kills the process (SIGPROF, default action) - a call that spins inside C code (a regular expression, say) cannot be interrupted
+    any other way.  cpu_seconds=0 disarms.  The parent turns 'killed by SIGPROF + marker' into a cpu-spin violation."""
+    if not cpu_seconds:
+        signal.setitimer(signal.ITIMER_PROF, 0)
+        if _spin_fd is not None:
+            os.close(_spin_fd)
+            _spin_fd = None
+        try:
+            os.unlink(_spin_path(prop, tier, shard))
+        except OSError:
+            pass
+        return
+    if _spin_fd is None:
+        os.makedirs(os.path.join(OUT_DIR, "shards"), exist_ok=True)
+        _spin_fd = os.open(_spin_path(prop, tier, shard), os.O_CREAT | os.O_TRUNC | os.O_WRONLY, 0o644)
+    # one fixed-size record rewritten in place (this runs before every case)
+    rec = json.dumps({"label": label, "case": jsonable(case), "cpu_seconds": cpu_seconds})[:2000]
+    os.pwrite(_spin_fd, rec.encode("utf-8", "replace").ljust(2048), 0)
+    signal.setitimer(signal.ITIMER_PROF, cpu_seconds)
+
+
 def _worker_cmd(prop, tier, seed, shard, nshards, out):
     # a check may ask for interpreter flags for some of its shards (e.g. -b: BytesWarning for str(bytes), as CI runs often have it)
     mod = check_module(prop)
@@ -220,6 +260,7 @@ def run_check(prop, tier, seed, jobs=None):
     env.setdefault("PYTHONHASHSEED", "0")
     dumps = []
     inconclusive = []
+    spin_violations = []
     queue = list(range(nshards))
     pending = []
     done = []
@@ -245,7 +286,17 @@ def run_check(prop, tier, seed, jobs=None):
                     still.append((i, p, o, st))
                 continue
             if rc != 0 or not os.path.exists(o):
-                inconclusive.append(f"shard {i} crashed (exit {rc})")
+                spin = _read_spin_marker(prop, tier, i) if rc == -signal.SIGPROF else None
+                if spin is not None:
+                    # the shard was killed by its CPU-time guard (spin_guard below): one case burnt more processor time than any
+                    # legitimate case comes near - a verdict on CPU time, which does not depend on how loaded the machine is
+                    key = ("cpu-spin", spin.get("label"))
+                    spin_violations.append({"property": prop, "kind": "cpu-spin", "where": spin.get("label"),
+                                            "detail": f"{spin.get('label')}: the call did not return within {spin.get('cpu_seconds')} s of CPU time "
+                                                      f"(the shard process was stopped by its CPU-time guard)",
+                                            "case": spin, "_key": "%016x" % h64(key), "_shard": [i, nshards]})
+                else:
+                    inconclusive.append(f"shard {i} crashed (exit {rc})")
                 continue
             with open(o) as f:
                 dumps.append(json.load(f))
@@ -255,6 +306,7 @@ def run_check(prop, tier, seed, jobs=None):
             time.sleep(0.05)
     m = merge(dumps, prop)
     m["inconclusive"].extend(inconclusive)
+    m["violations"].extend(spin_violations)
     return finish(prop, tier, seed, mod, m, time.time() - t0, nshards)
 
 
